@@ -43,11 +43,16 @@ const STATUSES: [u16; 10] = [200, 201, 302, 400, 401, 403, 404, 429, 500, 503];
 /// Latin-1 byte E9.
 const CTS: [Option<&str>; 6] = [Some("application/json"), None, Some("Application/JSON; charset=utf-8"), Some("text/html"), Some("text/html; t=caf\u{e9}"), Some("text/html; t=caf\u{e0e9}")];
 
+const DUP_CT: &str = "text/plain\u{e001}application/json";
+
 fn ct_bytes(s: &str) -> Vec<u8> {
     let mut out = Vec::new();
     for c in s.chars() {
         let u = c as u32;
-        if (0xE080..=0xE0FF).contains(&u) {
+        if u == 0xE001 {
+            // separator between the values of SEVERAL Content-Type header lines
+            out.push(0x01);
+        } else if (0xE080..=0xE0FF).contains(&u) {
             out.push((u - 0xE000) as u8);
         } else {
             let mut b = [0u8; 4];
@@ -58,9 +63,9 @@ fn ct_bytes(s: &str) -> Vec<u8> {
 }
 const BODIES: [&str; 6] = ["json", "empty", "binary", "64k", "chunked", "close-delimited"];
 const REQ_BODIES: [&str; 4] = ["small", "1k", "64k", "bytes256"];
-const FAULTS: [&str; 9] = [
+const FAULTS: [&str; 10] = [
     "refused", "closed-before-reply", "truncated-200", "truncated-400", "closed-after-head", "truncated-chunked-at-boundary",
-    "truncated-chunked", "garbage-binary", "garbage-status-line",
+    "truncated-chunked", "garbage-binary", "garbage-status-line", "garbage-status-099",
 ];
 const TARGET: &str = "/token?tenant=a%20b&x=1";
 const WATCHDOG: Duration = Duration::from_secs(5);
@@ -256,9 +261,11 @@ fn read_request(s: &mut TcpStream) -> Captured {
 fn head_bytes(status: u16, content_type: &Option<String>, extra: &[String]) -> Vec<u8> {
     let mut h = format!("HTTP/1.1 {} {}\r\nServer: verif-loopback\r\n", status, reason(status)).into_bytes();
     if let Some(ct) = content_type {
-        h.extend_from_slice(b"Content-Type: ");
-        h.extend_from_slice(&ct_bytes(ct));
-        h.extend_from_slice(b"\r\n");
+        for part in ct_bytes(ct).split(|b| *b == 0x01) {
+            h.extend_from_slice(b"Content-Type: ");
+            h.extend_from_slice(part);
+            h.extend_from_slice(b"\r\n");
+        }
     }
     for e in extra {
         h.extend_from_slice(e.as_bytes());
@@ -562,7 +569,8 @@ fn run_case(c: &Case) -> Result<CaseRun, String> {
             let ctb = content_type.as_ref().map(|s| ct_bytes(s));
             (
                 Some(vec![Action::Reply { status: *status, content_type: content_type.clone(), location: *status == 302, body: b.clone(), framing }]),
-                format!("r {} {} {}", status, hopt_b(ctb.as_deref()), hex(&b)),
+                // the model sees the FIRST Content-Type value (its replies have at most one such header)
+                format!("r {} {} {}", status, hopt_b(ctb.as_ref().map(|v| v.split(|b| *b == 0x01).next().unwrap_or(&[]))), hex(&b)),
                 Some((*status, ctb, b)),
             )
         }
@@ -610,6 +618,12 @@ fn run_case(c: &Case) -> Result<CaseRun, String> {
             "garbage-binary" => (Some(vec![Action::Garbage(b"\x7f\x00\xffthis is not HTTP\x01\r\n\r\n".to_vec())]), "f 3".to_string(), None),
             "garbage-status-line" => (
                 Some(vec![Action::Garbage(b"HTTP/1.1 2x0 Maybe\r\nContent-Length: 2\r\nConnection: close\r\n\r\n{}".to_vec())]),
+                "f 3".to_string(),
+                None,
+            ),
+            // three digits, but not a status code (valid codes are 100..=999): some engines hand it over as a number
+            "garbage-status-099" => (
+                Some(vec![Action::Garbage(b"HTTP/1.1 099 Weird\r\nContent-Type: application/json\r\nContent-Length: 2\r\nConnection: close\r\n\r\n{}".to_vec())]),
                 "f 3".to_string(),
                 None,
             ),
@@ -677,7 +691,7 @@ fn run_case(c: &Case) -> Result<CaseRun, String> {
             if status != st {
                 oracle.push((sig("status-altered"), format!("server sent {st}, adapter returned {status}")));
             }
-            let want: Vec<Vec<u8>> = ct.iter().cloned().collect();
+            let want: Vec<Vec<u8>> = ct.iter().flat_map(|v| v.split(|b| *b == 0x01).map(|p| p.to_vec()).collect::<Vec<_>>()).collect();
             if content_types != &want {
                 oracle.push((sig("content-type-altered"), format!("server sent {:?}, adapter returned {:?}", want.iter().map(|v| short(v)).collect::<Vec<_>>(), content_types.iter().map(|v| short(v)).collect::<Vec<_>>())));
             }
@@ -697,7 +711,12 @@ fn run_case(c: &Case) -> Result<CaseRun, String> {
             };
             oracle.push((sig(&format!("fault-returned-as-success:{f}")), format!("adapter returned Ok: status {status}, body {}", short(body))));
         }
-        (None, Ret::Err(_)) => {}
+        (None, Ret::Err(_)) => {
+            // an error value is right; but the (non-idempotent) request must not have been sent a second time behind the caller's back
+            if n_req > 1 {
+                oracle.push((sig("request-repeated-after-fault"), format!("server received {n_req} complete requests for ONE adapter call that ended in an error")));
+            }
+        }
     }
 
     // ---- line for the model
@@ -984,6 +1003,14 @@ fn full_matrix() -> Vec<Case> {
                     for b in BODIES {
                         v.push(Case { adapter: a.into(), req_body: rb.into(), server: ServerSpec::Reply { status: st, content_type: ct.map(|s| s.to_string()), body: b.into() } });
                     }
+                }
+            }
+            // two Content-Type header lines: the reqwest adapters copy ALL headers of the reply, in order (the engines behind
+            // the curl and ureq adapters show one value only; a reply with a repeated singleton header is outside the model's
+            // well-formed replies)
+            if a.starts_with("reqwest") && rb == "small" {
+                for st in [200u16, 400] {
+                    v.push(Case { adapter: a.into(), req_body: rb.into(), server: ServerSpec::Reply { status: st, content_type: Some(DUP_CT.to_string()), body: "json".into() } });
                 }
             }
             for f in FAULTS {
